@@ -145,8 +145,63 @@ def rs_write_setup(eng, st, node, stream_model):
     return selfv, args
 
 
+def _rs_write_ok(pre, post):
+    """the position this stream reports (tell: the units that passed through it; Padded / Aligned inside a streaming bit region compute
+    their padding from it) advances by exactly the number of units accepted, however many encoded groups were flushed"""
+    n = pre['data'].len if hasattr(pre['data'], 'len') else pre.st.get(pre['data']).len
+    before, after = _rs_field(pre, 'sincereadwritten').t, _rs_field(post, 'sincereadwritten').t
+    iv = post.result.t if isinstance(post.result, VInt) else None
+    out = [('reported-position-advances-by-the-number-of-units-accepted', t.eq(after, t.add(before, n)), ('C10', 'C03'))]
+    if iv is not None:
+        out.append(('returns-the-number-of-units-accepted', t.eq(iv, n), ('C10', 'C03')))
+    return out + _rs_no_silent_short(pre, post)
+
+
+register(FnContract(BS + ':RestreamedBytesIO.tell', setup=rs_setup, tags=('C10', 'C03'),
+                    cases=[Case('ok', 'return', lambda pre: t.TRUE, rkind=rk_int,
+                                ensures=lambda pre, post: [('reports-the-units-that-passed-through', t.eq(post.result.t, _rs_field(pre, 'sincereadwritten').t) if isinstance(post.result, VInt) else t.FALSE, ('C10', 'C03'))])]))
+
 _c = FnContract(BS + ':RestreamedBytesIO.write', setup=rs_write_setup, tags=('C06', 'C10'), stream_models=('adv', 'bytesio'),
-                cases=[Case('ok', 'return', lambda pre: t.TRUE, ensures=_rs_no_silent_short, rkind=rk_int),
+                cases=[Case('ok', 'return', lambda pre: t.TRUE, ensures=_rs_write_ok, rkind=rk_int),
                        Case('substream-failed', 'raise', lambda pre: t.TRUE)])
-_c.default_loop = LoopSpec(lambda L: [], tags=('C06',))
+def rs_read_setup(eng, st, node, stream_model):
+    selfv, args = rs_setup(eng, st, node, stream_model)
+    c = fresh('count', t.INT)
+    args['count'] = VInt(c)
+    o = st.get(selfv)
+    st.assume(t.ge(o.fields['decoderunit'].t, t.ONE))
+    return selfv, args
+
+
+def _rs_read_ok(pre, post):
+    """read(count) hands out exactly count decoded units and moves the reported position by count, or hands out nothing (the
+    substream is exhausted) and leaves the position alone"""
+    r = post.result
+    ln = r.len if hasattr(r, 'len') else (post.st.get(r).len if isinstance(r, VRef) else None)
+    if ln is None:
+        return [('returns-bytes', t.FALSE, ('C10', 'C03'))]
+    n = pre['count'].t
+    before, after = _rs_field(pre, 'sincereadwritten').t, _rs_field(post, 'sincereadwritten').t
+    return [('hands-out-exactly-count-units-or-nothing', t.or_(t.eq(ln, n), t.eq(ln, t.ZERO)), ('C10', 'C03')),
+            ('reported-position-advances-by-what-was-handed-out', t.eq(after, t.add(before, ln)), ('C10', 'C03'))]
+
+
+def _rs_fill_inv(L):
+    return [('reported-position-untouched-while-filling', t.eq(L.obj('self').fields['sincereadwritten'].t, L.oldobj('self').fields['sincereadwritten'].t), ('C10', 'C03'))]
+
+
+_r = FnContract(BS + ':RestreamedBytesIO.read', setup=rs_read_setup, tags=('C10', 'C03'), stream_models=('bytesio',),
+                cases=[Case('ok', 'return', lambda pre: t.ge(pre['count'].t, t.ZERO), ensures=_rs_read_ok, rkind=rk_bytes),
+                       Case('negative', 'raise', lambda pre: t.lt(pre['count'].t, t.ZERO), exc='ValueError'),
+                       Case('substream-failed', 'raise', lambda pre: t.TRUE)])
+_r.default_loop = LoopSpec(_rs_fill_inv, tags=('C10', 'C03'))
+register(_r)
+
+
+def _rs_flush_inv(L):
+    # flushing complete groups to the substream does not move the position this stream reports
+    return [('reported-position-untouched-while-flushing', t.eq(L.obj('self').fields['sincereadwritten'].t, L.oldobj('self').fields['sincereadwritten'].t), ('C10', 'C03'))]
+
+
+_c.default_loop = LoopSpec(_rs_flush_inv, tags=('C06', 'C10', 'C03'))
 register(_c)
